@@ -595,4 +595,133 @@ theorem Aux.subOpened {s : State} (h : Aux s) (sid : Sid) : Aux (subOpened s sid
         · exact h.of_sublist h.ctxConn List.filter_sublist List.filter_sublist List.filter_sublist rfl
     · exact h.of_sublist h.ctxConn List.filter_sublist List.filter_sublist (List.Sublist.refl _) rfl
 
+
+theorem subOpenFailure_transfers (s : State) (sid : Sid) (hA : Aux s) : Transfers s (subOpenFailure s sid) := by
+  intro q lk p' ho
+  cases hfind : s.opening.find? (fun o => o.1 == sid) with
+  | none =>
+    unfold subOpenFailure
+    rw [hfind]
+    exact .inl ho
+  | some o =>
+    cases hsub : s.pendingSubs.find? (fun x => x.1 == sid) with
+    | none =>
+      have hres : subOpenFailure s sid = { s with opening := s.opening.filter (fun o => o.1 != sid) } := by
+        unfold subOpenFailure subPeer
+        rw [hfind]
+        simp only [hsub, Option.map_none]
+      rw [hres]
+      rcases owned_split_sid s sid 0 ho with h1 | ⟨a, ha, h2, h3, h4, h5, h6⟩
+      · exact .inl (h1.mono (by unfold minusSid; owners_le))
+      · rw [subs_find s hA sid p' h5] at hsub
+        exact absurd hsub (by simp)
+    | some sp =>
+      obtain ⟨sid0, p⟩ := sp
+      rcases owned_split_sid s sid p ho with h1 | ⟨a, ha, h2, h3, h4, h5, h6⟩
+      · unfold subOpenFailure subPeer
+        rw [hfind]
+        simp only [hsub, Option.map_some]
+        split
+        · exact disconnectPeer_transfers _ _ _ _ _ _ h1
+        · exact .inl (h1.mono (by unfold minusSid; owners_le))
+      · have hpp : p = p' := by
+          rw [subs_find s hA sid p' h5] at hsub
+          simpa using (congrArg (fun o => o.map (·.2)) hsub).symm
+        subst hpp
+        have hact : actionAt { s with opening := s.opening.filter (fun o => o.1 != sid)
+                                      pendingSubs := s.pendingSubs.filter (fun x => x.1 != sid) } p sid = some a := by
+          unfold actionAt
+          simp only []
+          rw [actions_find s hA sid p a ha]
+          rfl
+        unfold subOpenFailure subPeer
+        rw [hfind]
+        simp only [hsub, Option.map_some]
+        rw [if_pos h6, hact]
+        subst h2
+        exact .inr (disconnectPeer_gone_query _ _ _ _)
+
+theorem Aux.subOpenFailure {s : State} (h : Aux s) (sid : Sid) : Aux (subOpenFailure s sid) := by
+  unfold Coordinator.subOpenFailure
+  split
+  · exact h
+  · simp only []
+    split
+    · exact h.of_sublist h.ctxConn (List.Sublist.refl _) List.filter_sublist (List.Sublist.refl _) rfl
+    · split
+      · apply Aux.disconnectPeer
+        exact h.of_sublist h.ctxConn List.filter_sublist List.filter_sublist List.filter_sublist rfl
+      · exact h.of_sublist h.ctxConn List.filter_sublist List.filter_sublist (List.Sublist.refl _) rfl
+
+/-! ## Connection events -/
+
+theorem closed_transfers (s : State) (p : Peer) : Transfers s (closed s p) := by
+  intro q lk p' ho
+  unfold closed
+  split
+  · have h1 : Owned { s with connected := s.connected.filter (· != p)
+                             opening := s.opening.filter (fun o => o.2 != p) } q lk p' ∨
+        (∃ sid a, (p, sid, a) ∈ s.actions ∧ a.q = q) := by
+      rcases ho with ⟨a, hd, h2, h3, h4⟩ | ⟨sid, a, ha, h2, h3, h4, h5, h6⟩ | ⟨k, hf, h3⟩
+      · exact .inl (.inl ⟨a, hd, h2, h3, h4⟩)
+      · by_cases hp : p' = p
+        · subst hp; exact .inr ⟨sid, a, ha, h2⟩
+        · exact .inl (.inr (.inl ⟨sid, a, ha, h2, h3, List.mem_filter.mpr ⟨h4, by simp [hp]⟩, h5, h6⟩))
+      · exact .inl (.inr (.inr ⟨k, hf, h3⟩))
+    rcases h1 with h1 | ⟨sid, a, ha, h2⟩
+    · exact disconnectPeer_transfers _ _ _ _ _ _ h1
+    · by_cases hp : p' = p
+      · subst hp; subst h2
+        exact .inr (disconnectPeer_gone_action _ _ _ sid a ha lk)
+      · -- an owner for another peer survives
+        have h1' : Owned { s with connected := s.connected.filter (· != p)
+                                  opening := s.opening.filter (fun o => o.2 != p) } q lk p' := by
+          rcases ho with ⟨a, hd, h2, h3, h4⟩ | ⟨sid, a, ha, h2, h3, h4, h5, h6⟩ | ⟨k, hf, h3⟩
+          · exact .inl ⟨a, hd, h2, h3, h4⟩
+          · exact .inr (.inl ⟨sid, a, ha, h2, h3, List.mem_filter.mpr ⟨h4, by simp [hp]⟩, h5, h6⟩)
+          · exact .inr (.inr ⟨k, hf, h3⟩)
+        exact disconnectPeer_transfers _ _ _ _ _ _ h1'
+  · exact .inl ho
+
+theorem Aux.closed {s : State} (h : Aux s) (p : Peer) : Aux (closed s p) := by
+  unfold Coordinator.closed
+  split
+  · have h1 : Aux (Coordinator.disconnectPeer s p none) := h.disconnectPeer p none
+    refine ⟨?_, h1.subsLt, h1.subsNodup, ?_, ?_, h1.actLt, h1.actNodup⟩
+    · intro p' hp'
+      have := List.mem_filter.mp hp'
+      exact List.mem_filter.mpr ⟨h.ctxConn p' this.1, this.2⟩
+    · exact fun x hx => h.openLt x (List.mem_filter.mp hx).1
+    · exact nodup_map_of_sublist _ List.filter_sublist h.openNodup
+  · exact h
+
+theorem foldl_bothFail_gone (p : Peer) (l : List PAction) (e0 : Engine) (a : PAction) (ha : a ∈ l) (lk : Bool) :
+    Gone (l.foldl (fun e a => regRespDone (regSendFail e a.q p) a.q p) e0) a.q lk p := by
+  induction l generalizing e0 with
+  | nil => exact absurd ha (by simp)
+  | cons b l ih =>
+    simp only [List.foldl_cons]
+    rcases List.mem_cons.mp ha with hab | ha
+    · subst hab
+      exact Gone.sub (Shrinks.foldl _ (fun e (a : PAction) => Shrinks.bothFail e a.q p) _ _).sub
+        (gone_bothFail _ _ _ _)
+    · exact ih _ ha
+
+theorem dialFailure_transfers (s : State) (p : Peer) : Transfers s (dialFailure s p) := by
+  intro q lk p' ho
+  rcases ho with ⟨a, hd, h2, h3, h4⟩ | ⟨sid, a, ha, h2, h3, h4, h5, h6⟩ | ⟨k, hf, h3⟩
+  · by_cases hp : p' = p
+    · subst hp; subst h2
+      refine .inr ?_
+      unfold dialFailure
+      simp only []
+      apply foldl_bothFail_gone
+      exact List.mem_map.mpr ⟨(p', a), List.mem_filter.mpr ⟨hd, by simp⟩, rfl⟩
+    · exact .inl (.inl ⟨a, List.mem_filter.mpr ⟨hd, by simp [hp]⟩, h2, h3, List.mem_filter.mpr ⟨h4, by simp [hp]⟩⟩)
+  · exact .inl (.inr (.inl ⟨sid, a, ha, h2, h3, h4, h5, h6⟩))
+  · exact .inl (.inr (.inr ⟨k, hf, h3⟩))
+
+theorem Aux.dialFailure {s : State} (h : Aux s) (p : Peer) : Aux (dialFailure s p) :=
+  h.of_sublist h.ctxConn (List.Sublist.refl _) (List.Sublist.refl _) (List.Sublist.refl _) rfl
+
 end Litep2pVerif.Kad.Coordinator
